@@ -350,6 +350,12 @@ func (c *EvalCtx) evalBinary(e *SExpr) (SV, error) {
 	if rt == nil {
 		rt = bt
 	}
+	// comparison of a slice with nil: a nil slice has no backing array
+	if a.Sort.Name == "Slice" && e.Args[1].Kind == "nil" {
+		a, b = ts.SelectField(ex.tm.slice, 0, a), ts.Int(0)
+	} else if b.Sort.Name == "Slice" && e.Args[0].Kind == "nil" {
+		a, b = ts.Int(0), ts.SelectField(ex.tm.slice, 0, b)
+	}
 	if a.Sort != b.Sort {
 		if a.Sort == SReal && b.Sort == SInt {
 			b = ts.RealFromInt(b)
@@ -735,6 +741,24 @@ func (c *EvalCtx) evalCall(e *SExpr) (SV, error) {
 		}
 		arr := ex.heapGet(c.st, "G:closed", SArray(SInt, SBool))
 		return SV{V: TV{ts.Select(arr, l)}, T: boolT}, nil
+	case "as":
+		// as(x, T): the interface value x viewed as a value of (pointer) type T;
+		// meaningful where typeis(x, T) holds
+		if len(e.Args) != 2 {
+			return SV{}, fmt.Errorf("as takes two arguments")
+		}
+		v, _, err := c.evalTerm(e.Args[0])
+		if err != nil {
+			return SV{}, err
+		}
+		ty, err := c.resolveType(e.Args[1].String())
+		if err != nil {
+			return SV{}, err
+		}
+		if ty == nil || !isPointerLike(ty) {
+			return SV{}, fmt.Errorf("as: %s is not a pointer-like type", e.Args[1])
+		}
+		return SV{V: TV{v}, T: ty}, nil
 	case "suffixof":
 		// suffixof(s, t, k): slice s is t[k:] (same backing array)
 		if len(e.Args) != 3 {
@@ -793,7 +817,19 @@ func (c *EvalCtx) evalCall(e *SExpr) (SV, error) {
 			if old == nil {
 				old = ex.initHeap(k, cur.Sort)
 			}
-			conds = append(conds, ts.Eq(cur, old))
+			if cur == old {
+				continue
+			}
+			if strings.HasPrefix(k, "G:") || cur.Sort.Args[0] != SInt {
+				conds = append(conds, ts.Eq(cur, old))
+				continue
+			}
+			// objects allocated by this call are not part of the old state:
+			// compare the contents of pre-existing objects only
+			r := ts.BoundVar("r", SInt)
+			conds = append(conds, ts.Forall([]*Term{r}, ts.Implies(
+				ts.Le(ex.uf("alloctime", SInt, r), ts.Int(0)),
+				ts.Eq(ts.Select(cur, r), ts.Select(old, r)))))
 		}
 		sortTerms(conds)
 		return SV{V: TV{ts.And(conds...)}, T: boolT}, nil
